@@ -216,8 +216,13 @@ func returnsAvoiding(fn *ssa.Function, must map[ssa.Instruction]bool, exempt fun
 	if len(fn.Blocks) == 0 {
 		return token.NoPos, false
 	}
+	return returnsAvoidingFrom([]*ssa.BasicBlock{fn.Blocks[0]}, must, exempt)
+}
+
+// returnsAvoidingFrom: the same search started at the given blocks.
+func returnsAvoidingFrom(start []*ssa.BasicBlock, must map[ssa.Instruction]bool, exempt func(ssa.Value) bool) (token.Pos, bool) {
 	seen := map[*ssa.BasicBlock]bool{}
-	stack := []*ssa.BasicBlock{fn.Blocks[0]}
+	stack := append([]*ssa.BasicBlock{}, start...)
 	for len(stack) > 0 {
 		b := stack[len(stack)-1]
 		stack = stack[:len(stack)-1]
@@ -410,4 +415,90 @@ func jobsScopeEntries(fn *ssa.Function) (pos token.Pos, why string) {
 		why = "nothing is entered into the map of the jobs scope"
 	}
 	return pos, why
+}
+
+// flowsFrom: v is src or a phi (transitively) fed by src.
+func flowsFrom(v, src ssa.Value, seen map[ssa.Value]bool) bool {
+	if v == src {
+		return true
+	}
+	if seen[v] {
+		return false
+	}
+	seen[v] = true
+	if ph, ok := v.(*ssa.Phi); ok {
+		for _, e := range ph.Edges {
+			if flowsFrom(e, src, seen) {
+				return true
+			}
+		}
+	}
+	return false
+}
+
+// parseErrorReported: in fn, every path from the edge on which the error result of the Parse call is known to be non-nil
+// to a return passes a call of the reporting function. Returns (position, reason) when that does not hold; found=false when
+// the function never tests the error.
+func parseErrorReported(fn *ssa.Function, parse ssa.CallInstruction, reports []ssa.CallInstruction) (pos token.Pos, why string, found bool) {
+	pv, ok := parse.(ssa.Value)
+	if !ok {
+		return token.NoPos, "", false
+	}
+	var errv ssa.Value
+	for _, ref := range *pv.Referrers() {
+		if ex, ok := ref.(*ssa.Extract); ok && ex.Index == 1 {
+			errv = ex
+		}
+	}
+	if errv == nil {
+		return parse.Pos(), "the error result of Parse is dropped", true
+	}
+	must := map[ssa.Instruction]bool{}
+	for _, r := range reports {
+		must[r] = true
+	}
+	for _, b := range fn.Blocks {
+		v, nilSucc, ok := nilTest(b.Instrs[len(b.Instrs)-1])
+		if !ok || !flowsFrom(v, errv, map[ssa.Value]bool{}) {
+			continue
+		}
+		found = true
+		// on these paths the error is known to be non-nil: a later test of it (or of a variable that took it over) does
+		// not take its nil edge
+		stillErr := func(x ssa.Value) bool { return flowsFrom(x, errv, map[ssa.Value]bool{}) }
+		if p, bad := returnsAvoidingFrom([]*ssa.BasicBlock{b.Succs[1-nilSucc]}, must, stillErr); bad {
+			return p, "a path from the failed parse returns without the report", true
+		}
+	}
+	return token.NoPos, "", found
+}
+
+// parseErrorReturned: the error result of every Parse call of fn reaches a return value of fn.
+func parseErrorReturned(fn *ssa.Function, parses []ssa.CallInstruction) bool {
+	for _, pc := range parses {
+		pv, ok := pc.(ssa.Value)
+		if !ok {
+			return false
+		}
+		returned := false
+		for _, ref := range *pv.Referrers() {
+			ex, ok := ref.(*ssa.Extract)
+			if !ok || ex.Index != 1 {
+				continue
+			}
+			for _, b := range fn.Blocks {
+				if ret, ok := b.Instrs[len(b.Instrs)-1].(*ssa.Return); ok {
+					for _, r := range ret.Results {
+						if flowsFrom(r, ex, map[ssa.Value]bool{}) {
+							returned = true
+						}
+					}
+				}
+			}
+		}
+		if !returned {
+			return false
+		}
+	}
+	return true
 }
